@@ -39,10 +39,10 @@ fn one_shot(zlib: bool, n: usize) {
     assert!(cout == n + 5 + if zlib { 6 } else { 0 });
     // K2: once Done, the core refuses every further call without touching anything
     let mut out2 = [0u8; 4];
-    let fl: u8 = kani::any();
-    let flush2 = if fl & 1 == 0 { TDEFLFlush::Finish } else { TDEFLFlush::None };
-    let (st2, cin2, cout2) = compress(&mut c, &data[..1], &mut out2, flush2);
+    let (st2, cin2, cout2) = compress(&mut c, &[], &mut out2, TDEFLFlush::Finish);
     assert!(st2 == TDEFLStatus::BadParam && cin2 == 0 && cout2 == 0);
+    let (st3, cin3, cout3) = compress(&mut c, &[], &mut out2, TDEFLFlush::None);
+    assert!(st3 == TDEFLStatus::BadParam && cin3 == 0 && cout3 == 0);
     kani::cover!(cout > 0);
 }
 
